@@ -58,6 +58,12 @@ func init() {
 				runs++
 			}
 		}
+		for _, zc := range certZoo() {
+			for n, r := range zlint.LintCertificate(zc.Cert).Results {
+				note(n, int(r.Status), zc.File+" der="+hexs(zc.DER))
+				runs++
+			}
+		}
 		for _, cc := range corpus.CRLs {
 			for n, r := range zlint.LintRevocationList(cc.CRL).Results {
 				note(n, int(r.Status), cc.File)
